@@ -72,3 +72,58 @@ fn c20_reply_addresses_requester() {
     assert!(it.next().is_none(), "C20: the correlation data appears once");
     assert!(r.properties.size() == 5 + 7, "C09/C20: declared property length counts the correlation data once");
 }
+
+fn reply_order_body<'a>(props: &'a [Property<'a>; 3], corr: &[u8; 2]) {
+    let msg = inbound(props);
+    match msg.reply_owned::<2, 2>() {
+        Ok(Some(t)) => {
+            assert!(t.topic() == "ab", "C20/order: owned response topic differs from the request's");
+            assert!(t.correlation_data() == Some(&corr[..]), "C20/order: owned correlation data depends on the position of the properties");
+        }
+        _ => assert!(false, "C20/order: an owned target that fits exactly was refused"),
+    }
+    let r = msg.reply(&b"p"[..]).expect("C20/order: a response topic yields a reply");
+    assert!(r.topic == "ab", "C20/order: the reply is addressed to exactly the response topic");
+    let mut it = r.properties.iter();
+    assert!(matches!(it.next(), Some(Ok(Property::CorrelationData(d))) if d.len() == 2 && d[0] == corr[0] && d[1] == corr[1]), "C20/order: the reply's correlation data depends on the position of the properties");
+    assert!(it.next().is_none(), "C20/order: nothing else is attached");
+}
+
+macro_rules! order_harness {
+    ($name:ident, |$t:ident, $c:ident, $u:ident| $arr:expr) => {
+        #[kani::proof]
+        #[kani::unwind(6)]
+        #[kani::stub(core::str::from_utf8, crate::verif_common::stub_from_utf8_unreached)]
+        fn $name() {
+            let corr: [u8; 2] = kani::any();
+            let ($t, $c, $u) = (Property::ResponseTopic("ab"), Property::CorrelationData(&corr), Property::UserProperty("k", "v"));
+            reply_order_body(&$arr, &corr);
+        }
+    };
+}
+
+// @harness props=C20 tier=quick layer=L1 unwind=6
+// @harness funcs="InboundPublish::response_target, reply, reply_owned, ResponseTarget::{to_owned, publication}, Properties::iter (Slice, WithCorrelation)"
+// @harness sym="2 correlation bytes" bounds="request property block (decoded values) in the order tuc of t=ResponseTopic('ab'), c=CorrelationData(2 bytes), u=UserProperty; the order t,c,u is c20_reply_owned_capacity / c20_reply_addresses_requester"
+order_harness!(c20_reply_order_tuc, |t, c, u| [t, u, c]);
+
+// @harness props=C20 tier=quick layer=L1 unwind=6
+// @harness funcs="InboundPublish::response_target, reply, reply_owned, ResponseTarget::{to_owned, publication}, Properties::iter (Slice, WithCorrelation)"
+// @harness sym="2 correlation bytes" bounds="request property block (decoded values) in the order ctu of t=ResponseTopic('ab'), c=CorrelationData(2 bytes), u=UserProperty; the order t,c,u is c20_reply_owned_capacity / c20_reply_addresses_requester"
+order_harness!(c20_reply_order_ctu, |t, c, u| [c, t, u]);
+
+// @harness props=C20 tier=quick layer=L1 unwind=6
+// @harness funcs="InboundPublish::response_target, reply, reply_owned, ResponseTarget::{to_owned, publication}, Properties::iter (Slice, WithCorrelation)"
+// @harness sym="2 correlation bytes" bounds="request property block (decoded values) in the order cut of t=ResponseTopic('ab'), c=CorrelationData(2 bytes), u=UserProperty; the order t,c,u is c20_reply_owned_capacity / c20_reply_addresses_requester"
+order_harness!(c20_reply_order_cut, |t, c, u| [c, u, t]);
+
+// @harness props=C20 tier=quick layer=L1 unwind=6
+// @harness funcs="InboundPublish::response_target, reply, reply_owned, ResponseTarget::{to_owned, publication}, Properties::iter (Slice, WithCorrelation)"
+// @harness sym="2 correlation bytes" bounds="request property block (decoded values) in the order utc of t=ResponseTopic('ab'), c=CorrelationData(2 bytes), u=UserProperty; the order t,c,u is c20_reply_owned_capacity / c20_reply_addresses_requester"
+order_harness!(c20_reply_order_utc, |t, c, u| [u, t, c]);
+
+// @harness props=C20 tier=quick layer=L1 unwind=6
+// @harness funcs="InboundPublish::response_target, reply, reply_owned, ResponseTarget::{to_owned, publication}, Properties::iter (Slice, WithCorrelation)"
+// @harness sym="2 correlation bytes" bounds="request property block (decoded values) in the order uct of t=ResponseTopic('ab'), c=CorrelationData(2 bytes), u=UserProperty; the order t,c,u is c20_reply_owned_capacity / c20_reply_addresses_requester"
+order_harness!(c20_reply_order_uct, |t, c, u| [u, c, t]);
+
